@@ -34,6 +34,8 @@ pub struct Cfg {
     pub backlog: usize,
     pub thr: u32,
     pub max: u32,
+    /// receive buffer cap (0 = the stack's default 64 KiB)
+    pub rcap: usize,
 }
 
 impl Cfg {
@@ -43,13 +45,14 @@ impl Cfg {
             backlog: 8,
             thr: 3,
             max: 5,
+            rcap: 0,
         }
     }
     pub fn canon(&self) -> String {
-        format!("{},b{},t{},m{}", self.layout.name(), self.backlog, self.thr, self.max)
+        format!("{},b{},t{},m{}{}", self.layout.name(), self.backlog, self.thr, self.max, if self.rcap > 0 { format!(",r{}", self.rcap) } else { String::new() })
     }
     pub fn to_json(&self) -> Value {
-        json!({"layout": self.layout.name(), "backlog": self.backlog, "thr": self.thr, "max": self.max})
+        json!({"layout": self.layout.name(), "backlog": self.backlog, "thr": self.thr, "max": self.max, "rcap": self.rcap})
     }
     pub fn from_json(v: &Value) -> Cfg {
         Cfg {
@@ -57,6 +60,7 @@ impl Cfg {
             backlog: v["backlog"].as_u64().unwrap_or(8) as usize,
             thr: v["thr"].as_u64().unwrap_or(3) as u32,
             max: v["max"].as_u64().unwrap_or(5) as u32,
+            rcap: v["rcap"].as_u64().unwrap_or(0) as usize,
         }
     }
     /// rounds after which everything both sides dropped must be reclaimed
@@ -86,6 +90,8 @@ pub enum Step {
     SDrop,
     /// (fate of client->server packets, fate of server->client packets)
     Round(Fate, Fate),
+    /// let a lazily polled connect future run again
+    Poll,
 }
 
 impl Step {
@@ -104,6 +110,7 @@ impl Step {
             Step::SShut => "ss".into(),
             Step::CDrop => "cd".into(),
             Step::SDrop => "sd".into(),
+            Step::Poll => "P".into(),
             Step::Round(a, b) => format!("R{}{}", a.code(), b.code()),
         }
     }
@@ -120,6 +127,7 @@ impl Step {
             "ss" => Step::SShut,
             "cd" => Step::CDrop,
             "sd" => Step::SDrop,
+            "P" => Step::Poll,
             _ if s.starts_with("cw") => Step::CWrite(s[2..].parse().ok()?),
             _ if s.starts_with("sw") => Step::SWrite(s[2..].parse().ok()?),
             _ if s.starts_with('R') && s.len() == 3 => {
@@ -147,6 +155,12 @@ pub struct Episode {
     pub server_first: bool,
     /// after reclamation reconnect on the same 4-tuple and transfer data
     pub reuse: bool,
+    /// the connect future is polled once and then only at `P` steps (an
+    /// application busy elsewhere)
+    pub lazy: bool,
+    /// close-out shuts the server's stream down but keeps the handle through
+    /// reclamation and the 4-tuple reuse probe
+    pub hold: bool,
     pub steps: Vec<Step>,
 }
 
@@ -160,6 +174,8 @@ impl Episode {
             keep: true,
             server_first: false,
             reuse: false,
+            lazy: false,
+            hold: false,
             steps,
         }
     }
@@ -184,6 +200,12 @@ impl Episode {
         if self.reuse {
             flags.push('r');
         }
+        if self.lazy {
+            flags.push('z');
+        }
+        if self.hold {
+            flags.push('h');
+        }
         let steps: Vec<String> = self.steps.iter().map(|s| s.code()).collect();
         format!("[{}:{}]", flags, steps.join(","))
     }
@@ -191,7 +213,7 @@ impl Episode {
         json!({
             "port": self.port, "wild": self.wild, "alt_dst": self.alt_dst,
             "steer": self.steer, "keep": self.keep, "server_first": self.server_first,
-            "reuse": self.reuse,
+            "reuse": self.reuse, "lazy": self.lazy, "hold": self.hold,
             "steps": self.steps.iter().map(|s| s.code()).collect::<Vec<_>>(),
         })
     }
@@ -204,6 +226,8 @@ impl Episode {
             keep: v["keep"].as_bool().unwrap_or(true),
             server_first: v["server_first"].as_bool().unwrap_or(false),
             reuse: v["reuse"].as_bool().unwrap_or(false),
+            lazy: v["lazy"].as_bool().unwrap_or(false),
+            hold: v["hold"].as_bool().unwrap_or(false),
             steps: v["steps"]
                 .as_array()
                 .map(|a| {
